@@ -35,6 +35,7 @@ import (
 	"testing"
 	"time"
 
+	"github.com/tochemey/goakt/v4/actor"
 	"github.com/tochemey/goakt/v4/internal/verif/vsched"
 )
 
@@ -49,6 +50,7 @@ const (
 	c45FlatMap
 	c45BatchFlatten
 	c45BatchBufFlatten
+	c45BatchSum
 	c45Scan
 	c45Dedup
 	c45Buffer
@@ -58,7 +60,7 @@ const (
 )
 
 var c45KindName = [...]string{
-	"Map", "TryMap", "TryMap!0", "TryMap!2", "Filter", "FlatMap", "Batch2.Flatten", "Batch2.Buffer1.Flatten",
+	"Map", "TryMap", "TryMap!0", "TryMap!2", "Filter", "FlatMap", "Batch2.Flatten", "Batch2.Buffer1.Flatten", "Batch2.MapSum",
 	"Scan", "Dedup", "Buffer2", "OrderedParallelMap2", "ParallelMap2",
 }
 
@@ -80,6 +82,13 @@ func c45FFlat(x int) []int {
 	default:
 		return []int{x, x + 10}
 	}
+}
+func c45FBatchSum(b []int) int {
+	v := 1000 * len(b)
+	for _, x := range b {
+		v += x
+	}
+	return v
 }
 func c45FScan(acc, x int) int { return acc + x }
 func c45FOPM(x int) int       { return 3 * x }
@@ -129,6 +138,11 @@ func c45Attach(src Source[int], k c45Kind, pos int) Source[int] {
 		return Via(Via(src, Batch[int](2, 2*time.Millisecond)), Flatten[int]())
 	case c45BatchBufFlatten:
 		return Via(Via(Via(src, Batch[int](2, 2*time.Millisecond)), Buffer[[]int](1, BackpressureSource)), Flatten[int]())
+	case c45BatchSum:
+		// Batch made observable: every batch becomes 1000*len(batch)+sum(batch). maxWait is one hour of
+		// virtual time (never reached by a case), so list semantics is "chunks of exactly 2, the last
+		// one possibly shorter".
+		return Via(Via(src, Batch[int](2, time.Hour)), Map(c45FBatchSum))
 	case c45Scan:
 		return Via(src, Scan(0, c45FScan))
 	case c45Dedup:
@@ -162,13 +176,49 @@ func (s c45Stream) key() string {
 }
 
 func c45OrderSensitive(k c45Kind) bool {
-	return k == c45Scan || k == c45Dedup || k == c45TryE0 || k == c45TryE2
+	return k == c45Scan || k == c45Dedup || k == c45TryE0 || k == c45TryE2 || k == c45BatchSum
 }
 
-func c45IsBatch(k c45Kind) bool { return k == c45BatchFlatten || k == c45BatchBufFlatten }
+func c45IsBatch(k c45Kind) bool {
+	return k == c45BatchFlatten || k == c45BatchBufFlatten || k == c45BatchSum
+}
+
+// c45BatchDev describes, for DIAGNOSIS of an observed failure only, a deviation of one Batch stage
+// from list semantics: it delivers only the first keep elements of its input (any keep elements when
+// the stream is a multiset) and (Batch2.MapSum only, where batch boundaries are visible) cuts them
+// into batches of the given sizes instead of 2,2,..,rest.
+type c45BatchDev struct {
+	keep   int
+	chunks []int // nil = list semantics
+}
+
+// c45Chunk cuts seq into batches: sizes from chunks while they last, then list semantics (2).
+func c45Chunk(seq []int, chunks []int) [][]int {
+	var out [][]int
+	i := 0
+	for _, c := range chunks {
+		if i >= len(seq) {
+			break
+		}
+		if i+c > len(seq) {
+			c = len(seq) - i
+		}
+		out = append(out, seq[i:i+c])
+		i += c
+	}
+	for i < len(seq) {
+		c := 2
+		if i+c > len(seq) {
+			c = len(seq) - i
+		}
+		out = append(out, seq[i:i+c])
+		i += c
+	}
+	return out
+}
 
 // c45ApplyOrdered applies a stage (ParallelMap treated as an ordered map) to one stream.
-func c45ApplyOrdered(k c45Kind, pos int, in c45Stream) c45Stream {
+func c45ApplyOrdered(k c45Kind, pos int, in c45Stream, chunks []int) c45Stream {
 	out := c45Stream{unordered: in.unordered, errs: in.errs}
 	switch k {
 	case c45Map:
@@ -200,6 +250,10 @@ func c45ApplyOrdered(k c45Kind, pos int, in c45Stream) c45Stream {
 		}
 	case c45BatchFlatten, c45BatchBufFlatten, c45Buffer:
 		out.seq = append(out.seq, in.seq...)
+	case c45BatchSum:
+		for _, b := range c45Chunk(in.seq, chunks) {
+			out.seq = append(out.seq, c45FBatchSum(b))
+		}
 	case c45Scan:
 		acc := 0
 		for _, x := range in.seq {
@@ -284,11 +338,8 @@ func c45SubMultisets(s []int, t int, f func([]int)) {
 
 // c45Model returns the set of possible streams of the program on the input; ok=false when the
 // permutation expansion would exceed the caps (the case then has no verdict).
-//
-// keep is only used to DIAGNOSE an observed failure (never to accept one): keep[pos] >= 0 makes the
-// stage at pos see only the first keep[pos] elements of its input (any keep[pos] elements when the
-// stream is a multiset), which is what "this stage lost the tail of its input" looks like.
-func c45Model(prog []c45Kind, input []int, keep []int) (set []c45Stream, ok bool) {
+// dev (nil for the verdict) is only used to DIAGNOSE an observed failure, never to accept one.
+func c45Model(prog []c45Kind, input []int, dev []*c45BatchDev) (set []c45Stream, ok bool) {
 	cur := []c45Stream{{seq: append([]int(nil), input...)}}
 	for pos, k := range prog {
 		laterSensitive := false
@@ -306,10 +357,12 @@ func c45Model(prog []c45Kind, input []int, keep []int) (set []c45Stream, ok bool
 				next = append(next, s)
 			}
 		}
-		if keep != nil && keep[pos] >= 0 {
+		var chunks []int
+		if dev != nil && dev[pos] != nil {
+			chunks = dev[pos].chunks
 			var trimmed []c45Stream
 			for _, s := range cur {
-				t := keep[pos]
+				t := dev[pos].keep
 				if t >= len(s.seq) {
 					trimmed = append(trimmed, s)
 					continue
@@ -328,7 +381,7 @@ func c45Model(prog []c45Kind, input []int, keep []int) (set []c45Stream, ok bool
 			if s.unordered && c45OrderSensitive(k) {
 				panic("c45Model: order-sensitive stage on a multiset stream")
 			}
-			o := c45ApplyOrdered(k, pos, s)
+			o := c45ApplyOrdered(k, pos, s, chunks)
 			if k != c45PM || o.unordered {
 				add(o)
 				continue
@@ -352,6 +405,39 @@ func c45Model(prog []c45Kind, input []int, keep []int) (set []c45Stream, ok bool
 	return cur, true
 }
 
+// c45Compositions returns every way to write t as an ordered sum of positive parts.
+func c45Compositions(t int) [][]int {
+	if t == 0 {
+		return nil
+	}
+	var out [][]int
+	var cur []int
+	var rec func(rest int)
+	rec = func(rest int) {
+		if rest == 0 {
+			out = append(out, append([]int(nil), cur...))
+			return
+		}
+		for c := 1; c <= rest; c++ {
+			cur = append(cur, c)
+			rec(rest - c)
+			cur = cur[:len(cur)-1]
+		}
+	}
+	rec(t)
+	return out
+}
+
+// c45DefaultChunks: is the composition the list-semantics one (2,2,..,rest)?
+func c45DefaultChunks(ch []int) bool {
+	for i, c := range ch {
+		if c != 2 && !(c == 1 && i == len(ch)-1) {
+			return false
+		}
+	}
+	return true
+}
+
 // c45Canonical is the model with ParallelMap treated as ordered (used to describe a failure); lens[i]
 // is the length of the input of stage i.
 func c45Canonical(prog []c45Kind, input []int) (c45Stream, []int) {
@@ -359,7 +445,7 @@ func c45Canonical(prog []c45Kind, input []int) (c45Stream, []int) {
 	lens := make([]int, len(prog))
 	for pos, k := range prog {
 		lens[pos] = len(s.seq)
-		s = c45ApplyOrdered(k, pos, s)
+		s = c45ApplyOrdered(k, pos, s, nil)
 	}
 	return s, lens
 }
@@ -475,7 +561,8 @@ func c45Judge(prog []c45Kind, input []int, set []c45Stream, o c45Obs) (sig, deta
 		return "no-completion-at-quiescence", fmt.Sprintf("stream not done at quiescence (virtual time advanced by > 1 min); %s; %s", got, what)
 	}
 	// Diagnosis (does not change the verdict): is the observation exactly what list semantics gives
-	// when the Batch stage(s) of the pipeline lose the tail of their input?
+	// when the Batch stage(s) of the pipeline lose the tail of their input and/or cut their batches
+	// differently? Deviations are tried from none upwards; the first explanation names the signature.
 	var batchPos []int
 	for pos, k := range prog {
 		if c45IsBatch(k) && lens[pos] > 0 {
@@ -483,37 +570,71 @@ func c45Judge(prog []c45Kind, input []int, set []c45Stream, o c45Obs) (sig, deta
 		}
 	}
 	if len(batchPos) > 0 {
-		keep := make([]int, len(prog))
-		var rec func(i int, anyLoss bool) bool
-		rec = func(i int, anyLoss bool) bool {
+		dev := make([]*c45BatchDev, len(prog))
+		var rec func(i int, deviates bool) bool
+		rec = func(i int, deviates bool) bool {
 			if i == len(batchPos) {
-				if !anyLoss {
+				if !deviates {
 					return false
 				}
-				set2, ok := c45Model(prog, input, keep)
+				set2, ok := c45Model(prog, input, dev)
 				return ok && c45Conforms(set2, o)
 			}
 			p := batchPos[i]
 			for t := lens[p]; t >= 0; t-- {
-				keep[p] = t
-				if rec(i+1, anyLoss || t < lens[p]) {
-					return true
+				chunkings := [][]int{nil}
+				if prog[p] == c45BatchSum {
+					chunkings = append(chunkings, c45Compositions(t)...)
+				}
+				for ci, ch := range chunkings {
+					if ci > 0 && c45DefaultChunks(ch) {
+						continue
+					}
+					dev[p] = &c45BatchDev{keep: t, chunks: ch}
+					if rec(i+1, deviates || t < lens[p] || ch != nil) {
+						return true
+					}
 				}
 			}
-			keep[p] = -1
+			dev[p] = nil
 			return false
-		}
-		for i := range keep {
-			keep[i] = -1
 		}
 		if rec(0, false) {
 			var ks []string
+			lost, oversize, other := false, false, false
 			for _, p := range batchPos {
-				if keep[p] < lens[p] {
-					ks = append(ks, fmt.Sprintf("stage #%d (%s) delivered only %d of its %d input elements", p, c45KindName[prog[p]], keep[p], lens[p]))
+				d := dev[p]
+				if d.keep < lens[p] {
+					lost = true
+					ks = append(ks, fmt.Sprintf("stage #%d (%s) delivered only %d of its %d input elements", p, c45KindName[prog[p]], d.keep, lens[p]))
+				}
+				if d.chunks != nil {
+					big := false
+					for _, c := range d.chunks {
+						if c > 2 {
+							big = true
+						}
+					}
+					if big {
+						oversize = true
+					} else {
+						other = true
+					}
+					ks = append(ks, fmt.Sprintf("stage #%d (%s) cut its input into batches of sizes %v", p, c45KindName[prog[p]], d.chunks))
 				}
 			}
-			return "batch-stage-loses-tail-of-its-input", fmt.Sprintf("%s; %s; the observation is exactly list semantics with: %s", got, what, strings.Join(ks, ", "))
+			sig := "batch-stage-emits-underfull-batch"
+			switch {
+			case lost && oversize:
+				sig = "batch-stage-loses-tail-and-emits-batch-larger-than-n"
+			case lost && other:
+				sig = "batch-stage-loses-tail-and-emits-underfull-batch"
+			case lost:
+				sig = "batch-stage-loses-tail-of-its-input"
+			case oversize:
+				sig = "batch-stage-emits-batch-larger-than-n"
+			}
+			return sig, fmt.Sprintf("%s; %s; the observation is exactly list semantics with: %s", got, what, strings.Join(ks, ", "))
 		}
 	}
 	// terminal
@@ -623,32 +744,51 @@ func (f c45Failures) report(e *vsched.Enum) {
 
 func TestVerifC45(t *testing.T) {
 	defer vsched.Finish(t)
+	vsched.Rep() // must be initialised OUTSIDE the bubble (it reads the real clock)
+	var cur *vsched.Enum
+	bud := c45StartBudget(func(reason string) {
+		if cur != nil && cur.St.Capped == "" {
+			cur.St.Capped = reason
+		}
+	})
+	defer bud.done()
+	// one bubble for the whole process (see zz_c45_common_test.go)
+	p := vsched.Bubble(t, func() {
+		c45ScenarioSignals(bud, &cur)
+		c45ScenarioLinear(bud, &cur)
+	})
+	if p != nil {
+		panic(p)
+	}
+}
+
+func c45ScenarioLinear(bud *c45Budget, cur **vsched.Enum) {
 	r := vsched.Rep()
 	depth := vsched.Pick(3, 4)
 	inputs := [][]int{{}, {1}, {1, 1, 2}, {3, 1, 2, 2, 5}}
 	if r.Thorough() {
 		inputs = append(inputs, []int{2, 2}, []int{4, 9, 9, 6, 2, 7})
 	}
-	modes := []FusionMode{FuseStateless, FuseNone, FuseAggressive}
+	modes := []FusionMode{FuseStateless, FuseNone}
+	modeNames := []string{"FuseStateless", "FuseNone"}
+	if r.Thorough() {
+		modes = append(modes, FuseAggressive)
+		modeNames = append(modeNames, "FuseAggressive")
+	}
 	scenario := "linear-pipelines"
 	e := vsched.NewEnum(scenario, map[string]any{
 		"stages": c45KindName[:], "max_depth": depth, "inputs": fmt.Sprint(inputs),
-		"fusion_modes": []string{"FuseStateless", "FuseNone", "FuseAggressive"},
+		"fusion_modes": modeNames,
 		"functions":    "Map 2x+1; TryMap x+3 (!j fails at its j-th input); Filter odd; FlatMap x%3 -> [],[x],[x x+10]; Scan running sum; OrderedParallelMap2 3x; ParallelMap2 x+7 (both sleep (x%5) ms of virtual time); Batch(2, 2ms); Buffer(2)/Buffer(1) no-drop",
 	})
 	r.Assumption("one goroutine schedule per execution (Go runtime scheduler inside a synctest bubble, virtual time); the oracle only uses schedule-independent facts at quiescence")
 	r.Assumption("unordered ParallelMap is modelled as 'any permutation of its results' (over-approximates the 2-element in-flight window)")
 	r.Assumption("every stage actor gets goakt's UnboundedMailbox instead of the default BoundedMailbox (see c45UnboundedMailboxes)")
+	*cur = e
 	replay := c45Replay()
-	bud := c45StartBudget(func(reason string) {
-		if e.St.Capped == "" {
-			e.St.Capped = reason
-		}
-	})
-	defer bud.done()
 	var maxSet, failing, flaky int64
 	fails := c45Failures{}
-	p := vsched.Bubble(t, func() {
+	{
 		c45Programs(depth, func(prog []c45Kind) {
 			for _, mode := range modes {
 				for _, in := range inputs {
@@ -687,26 +827,161 @@ func TestVerifC45(t *testing.T) {
 						// more fresh executions tell how schedule dependent it is.
 						failing++
 						same := 1
-						for i := 0; i < 2; i++ {
-							o2 := c45RunCase(prog, mode, in)
-							if s2, _ := c45Judge(prog, in, set, o2); s2 == sig {
-								same++
+						if b := fails[sig]; b == nil || b.repro < 3 || len(prog)*100+len(in) < b.size {
+							// (re-execution is skipped once the signature has a smaller 3/3 witness)
+							for i := 0; i < 2; i++ {
+								o2 := c45RunCase(prog, mode, in)
+								if s2, _ := c45Judge(prog, in, set, o2); s2 == sig {
+									same++
+								}
 							}
+							if same < 3 {
+								flaky++
+							}
+							fails.add(sig, caseStr, detail, same, len(prog)*100+len(in))
 						}
-						if same < 3 {
-							flaky++
-						}
-						fails.add(sig, caseStr, detail, same, len(prog)*100+len(in))
 					}
 					e.Case(caseStr, o.String(), 1, len(prog) > 0 && len(in) > 0)
 				}
 			}
 		})
 		fails.report(e)
-	})
-	if p != nil {
-		panic(p)
 	}
-	r.Note("linear-pipelines: largest possible-stream set of a case: %d; failing cases in this shard: %d (of which schedule dependent, i.e. not 3/3: %d)", maxSet, failing, flaky)
+	r.Note("linear-pipelines: largest possible-stream set of a case: %d; failing cases in this shard: %d (re-executed ones that did not fail 3/3: %d)", maxSet, failing, flaky)
+	e.Done()
+}
+
+// ---------------------------------------------------------------------------------------------
+// Scenario "terminal-signals": "the stream completes exactly once" observed at the place where the
+// statement puts it, the sink: the pipeline's last stage must deliver exactly one terminal signal
+// (streamComplete xor streamError) to the sink stage and no element after it. The real sink hides a
+// repeated signal (it shuts down on the first one), so this scenario terminates the pipeline with a
+// recording sink stage that speaks the same stage protocol (stageWire -> streamRequest(InitialDemand),
+// then elements and terminal signals) but stays alive, and counts what arrives until quiescence.
+
+type c45ProbeSink struct {
+	elems         []int
+	completes     int
+	errs          int
+	afterTerminal int
+}
+
+func (a *c45ProbeSink) PreStart(*actor.Context) error { return nil }
+func (a *c45ProbeSink) PostStop(*actor.Context) error { return nil }
+func (a *c45ProbeSink) Receive(rctx *actor.ReceiveContext) {
+	switch msg := rctx.Message().(type) {
+	case *stageWire:
+		rctx.Tell(msg.upstream, &streamRequest{subID: msg.subID, n: defaultInitialDemand})
+	case *streamElement:
+		if a.completes+a.errs > 0 {
+			a.afterTerminal++
+		}
+		if v, ok := msg.value.(int); ok {
+			a.elems = append(a.elems, v)
+		}
+	case *streamComplete:
+		a.completes++
+	case *streamError:
+		a.errs++
+	default:
+		rctx.Unhandled()
+	}
+}
+
+func c45RunProbe(prog []c45Kind, mode FusionMode, input []int) *c45ProbeSink {
+	sys := c45NewSystem()
+	defer c45StopSystem(sys)
+	src := Of(input...)
+	for pos, k := range prog {
+		src = c45Attach(src, k, pos)
+	}
+	probe := &c45ProbeSink{}
+	sink := Sink[int]{desc: &stage{id: newStageID(), kind: sinkKind, config: defaultStageConfig(),
+		actorFn: func(StageConfig) actor.Actor { return probe }}}
+	g := src.To(sink)
+	c45UnboundedMailboxes(g.stages)
+	if _, err := g.WithFusion(mode).Run(context.Background(), sys); err != nil {
+		panic(err)
+	}
+	// the probe never stops, so the handle never reports Done: quiescence + virtual time only
+	vsched.Settle()
+	for _, d := range []time.Duration{5 * time.Millisecond, 50 * time.Millisecond, time.Second} {
+		time.Sleep(d)
+		vsched.Settle()
+	}
+	return probe
+}
+
+func c45JudgeProbe(pr *c45ProbeSink) (sig, detail string) {
+	got := fmt.Sprintf("the sink stage received %d element(s), %d streamComplete and %d streamError signal(s), %d element(s) after the first terminal signal", len(pr.elems), pr.completes, pr.errs, pr.afterTerminal)
+	switch {
+	case pr.completes+pr.errs == 0:
+		return "no-terminal-signal-at-quiescence", got
+	case pr.completes > 0 && pr.errs > 0:
+		return "both-completion-and-error-signalled", got
+	case pr.completes > 1:
+		return "completion-signalled-more-than-once", got
+	case pr.errs > 1:
+		return "error-signalled-more-than-once", got
+	case pr.afterTerminal > 0:
+		return "element-after-terminal-signal", got
+	}
+	return "", ""
+}
+
+func c45ScenarioSignals(bud *c45Budget, cur **vsched.Enum) {
+	r := vsched.Rep()
+	depth := vsched.Pick(2, 3)
+	inputs := [][]int{{}, {1}, {1, 1, 2}, {3, 1, 2, 2, 5}}
+	modes := []FusionMode{FuseStateless, FuseNone}
+	scenario := "terminal-signals"
+	e := vsched.NewEnum(scenario, map[string]any{"stages": c45KindName[:], "max_depth": depth, "inputs": fmt.Sprint(inputs), "fusion_modes": []string{"FuseStateless", "FuseNone"}})
+	*cur = e
+	replay := c45Replay()
+	fails := c45Failures{}
+	var failing int64
+	{
+		c45Programs(depth, func(prog []c45Kind) {
+			for _, mode := range modes {
+				for _, in := range inputs {
+					caseStr := fmt.Sprintf("Of%s > %s > recording sink | %s", c45Str(in), c45ProgStr(prog), c45FusionName[mode])
+					if replay != nil {
+						if replay.skip(scenario, caseStr) {
+							continue
+						}
+					} else if !e.Mine() {
+						continue
+					}
+					if bud.expired.Load() {
+						if e.St.Capped == "" {
+							e.St.Capped = fmt.Sprintf("wall budget reached after %d cases", e.St.Executions)
+						}
+						continue
+					}
+					bud.begin(caseStr)
+					pr := c45RunProbe(prog, mode, in)
+					sig, detail := c45JudgeProbe(pr)
+					if replay != nil {
+						fmt.Printf("REPLAY %s\n  verdict: %s %s\n", caseStr, map[bool]string{true: "conforms", false: "VIOLATION " + sig}[sig == ""], detail)
+					}
+					if sig != "" {
+						failing++
+						same := 1
+						if b := fails[sig]; b == nil || b.repro < 3 || len(prog)*100+len(in) < b.size {
+							for i := 0; i < 2; i++ {
+								if s2, _ := c45JudgeProbe(c45RunProbe(prog, mode, in)); s2 == sig {
+									same++
+								}
+							}
+							fails.add(sig, caseStr, detail, same, len(prog)*100+len(in))
+						}
+					}
+					e.Case(caseStr, fmt.Sprintf("%s complete=%d error=%d late=%d", c45Str(pr.elems), pr.completes, pr.errs, pr.afterTerminal), 1, len(prog) > 0)
+				}
+			}
+		})
+		fails.report(e)
+	}
+	r.Note("terminal-signals: failing cases in this shard: %d", failing)
 	e.Done()
 }
